@@ -53,12 +53,25 @@ class FaultPlan:
         self.partial = partial      # None: nothing written; int: that many bytes written first
         self.count = 0
         self.fired = 0
+        self.short = None
 
     def hit(self, kind, path):
-        if kind != self.kind or not path.endswith(self.suffix):
+        if (self.kind is not None and kind != self.kind) or not path.endswith(self.suffix):
             return None
         i = self.count
         self.count += 1
+        self.short = None
+        if self.partial and kind == 'write':
+            # realistic OS behaviour: the nth write is short (returns a count), the
+            # following one(s) fail
+            if i == self.nth:
+                self.fired += 1
+                self.short = self.partial
+                return self
+            if self.nth < i <= self.nth + 1 + self.sticky:
+                self.fired += 1
+                return self
+            return None
         if self.nth <= i <= self.nth + self.sticky:
             self.fired += 1
             return self
@@ -84,11 +97,12 @@ class RecordingRaw(io.FileIO):
             off = self.tell()
         f = rec.check_fault('write', self._vpath, len(data))
         if f is not None:
-            if f.partial:
-                part = data[:f.partial]
+            if f.short and f.short < len(data):
+                part = data[:f.short]
                 rec.add('write', self._vpath, off, part)
-                super().write(part)
-            raise OSError(f.err, _os.strerror(f.err))
+                return super().write(part)
+            if not f.short:
+                raise OSError(f.err, _os.strerror(f.err))
         rec.add('write', self._vpath, off, data)
         n = super().write(data)
         assert n == len(data), 'short write from the OS'
